@@ -114,6 +114,44 @@ def raw_peer_histories(ctx):
                 out.append((name, uid, bool(seen) and not seen[0].dul.is_alive()))
             finally:
                 srv.shutdown()
+        # a PDU far larger than the socket's send buffer, on a socket with a timeout: the transport writes it in many pieces -
+        # it still is one PDU sent (the requestor's history is judged)
+        import socket as _socket
+        from io import BytesIO  # noqa: F401
+        from pydicom.dataset import Dataset, FileMetaDataset
+        CT = "1.2.840.10008.5.1.4.1.1.2"
+        seen = []
+        scp = AE("ACCEPTOR")
+        scp.maximum_pdu_size = 0
+        scp.add_supported_context(CT)
+        scp.acse_timeout = scp.dimse_timeout = scp.network_timeout = 20
+        srv = scp.start_server(("127.0.0.1", 0), block=False, evt_handlers=[(evt.EVT_C_STORE, lambda e: 0x0000)])
+        try:
+            def shrink(event):
+                seen.append(event.assoc)
+                sk = event.assoc.dul.socket.socket
+                sk.setsockopt(_socket.SOL_SOCKET, _socket.SO_SNDBUF, 8192)
+                sk.settimeout(10)
+            scu = AE("REQUESTOR")
+            scu.add_requested_context(CT)
+            scu.acse_timeout = scu.dimse_timeout = scu.network_timeout = 20
+            a = scu.associate("127.0.0.1", srv.socket.getsockname()[1], evt_handlers=[(evt.EVT_CONN_OPEN, shrink)])
+            if not a.is_established:
+                raise MachineryError("partial-writes scenario: not established")
+            ds = Dataset()
+            ds.SOPClassUID, ds.SOPInstanceUID, ds.PatientID = CT, "1.2.3.4", "P"
+            ds.add_new(0x00420011, "OB", bytes(4 * 1024 * 1024))       # (Encapsulated Document: 4 MiB of bytes)
+            ds.file_meta = FileMetaDataset()
+            ds.file_meta.TransferSyntaxUID = "1.2.840.10008.1.2"
+            ds.is_little_endian, ds.is_implicit_VR = True, True
+            a.send_c_store(ds)
+            a.release()
+            t0 = time.time()
+            while time.time() - t0 < 5 and (a.is_alive() or a.dul.is_alive()):
+                time.sleep(0.01)
+            out.append(("partial-writes", getattr(a, "_verif_uid", None), not a.dul.is_alive()))
+        finally:
+            srv.shutdown()
     by = rec.by_assoc()
     tr = []
     for k, (name, uid, ended) in enumerate(out):
@@ -127,7 +165,17 @@ def raw_peer_histories(ctx):
         ctx.case(("raw-peer", name), nontrivial=True)
         if v != "ok":
             evs = [e["k"] + str(e["a"]) if e["k"] != "fsm" else f"Sta{e['a']}+Evt{e['b']}" for e in t["h"]]
-            ctx.violation({"clause": v, "cause": "none", "role": "acceptor", "raw": name}, f"{v}: acceptor whose raw peer goes on sending ({name}): history={evs[-40:]}", {"raw": name})
+            # (as in the scenario runs: a history cut short because the provider thread died on an undefined event is reported by
+            #  that event - the open C05-root findings - not by the clause it happens to break)
+            import re as _re
+            died = [m for m in rec.crash_by_assoc.get(uid, [])]
+            ev_ = next((_re.search(r"Invalid event '(Evt\d+)' for the current state '(Sta\d+)'", m) for m in died if "Invalid event" in m), None)
+            if ev_:
+                ctx.violation({"clause": v, "cause": f"acceptor {ev_.group(1)}@{ev_.group(2)}", "cause_event": ev_.group(1)},
+                              f"{v}: raw-peer history {name}: the provider thread died on {ev_.group(1)} in {ev_.group(2)}; history={evs[-30:]}", {"raw": name})
+                continue
+            ctx.violation({"clause": v, "cause": "none", "role": "requestor" if name == "partial-writes" else "acceptor", "raw": name},
+                          f"{v}: {'requestor writing a 4 MiB PDU through an 8 kB send buffer' if name == 'partial-writes' else 'acceptor whose raw peer goes on sending'} ({name}): history={evs[-40:]}", {"raw": name})
 
 
 def run(ctx):
